@@ -374,6 +374,68 @@ package adaptation
 //@   loop 1 invariant mapStable(ledger(r).rlimits, old(ledger(r).rlimits))
 //@   loop 1 invariant old(rlimitsDisjoint(r, rlimits)) ==> forall j int :: idx < j && j < len(rlimits) ==> !has(ledger(r).rlimits, rlimits[j].Type)
 
+// ---------------------------------------------------------------------------
+// Annotations (result.go: adjustAnnotations) — sets, removals ("-key") and remove-then-set
+// ---------------------------------------------------------------------------
+//@ pure markedK(k string) = len(k) > 0 && k[0] == 45
+//@ pure annL(r *result) = ledger(r).annotations
+//@ pure annV(r *result) = view(r).Annotations
+//@ pure annR(r *result) = reply(r).Annotations
+// what the plugin's response asks for (the response map is consumed by the function, so these read its entry contents)
+//@ pure setK(a map[string]string, k string) = old(has(a, k)) && !markedK(k)
+//@ pure rmK(a map[string]string, k string) = old(has(a, "-" + k))
+
+//@ func result.adjustAnnotations
+//@   props C01 C02 C03 C04
+//@   requires wfCreate(r) && annV(r) != nil && annR(r) != nil && annV(r) != annR(r) && annotations != annV(r) && annotations != annR(r)
+//@   requires has(r.owners, cid(r)) ==> wfOwners(ledger(r)) && avoids(ledger(r), annotations) && avoids(ledger(r), annV(r)) && avoids(ledger(r), annR(r))
+// no key is marked for removal twice ("--k")
+//@   requires forall k string :: has(annotations, "-" + k) ==> !markedK(k)
+//@   modifies map(annotations), mapkey(r.owners, cid(r)), ledger(r).annotations, map(ledger(r).annotations), map(annV(r)), map(annR(r))
+//@   ensures [noop]     old(len(annotations)) == 0 ==> result == nil
+//@   ensures [c01]      result == nil ==> (forall k string :: setK(annotations, k) && !rmK(annotations, k) ==> !old(has(annL(r), k)))
+//@   ensures [c02]      (forall k string :: setK(annotations, k) && !rmK(annotations, k) ==> !old(has(annL(r), k))) ==> result == nil
+//@   ensures [owned]    result == nil ==> (forall k string :: setK(annotations, k) ==> has(annL(r), k) && annL(r)[k] == plugin)
+//@   ensures [released] result == nil ==> (forall k string :: rmK(annotations, k) && !setK(annotations, k) ==> !has(annL(r), k))
+//@   ensures [lkept]    result == nil ==> (forall k string :: !rmK(annotations, k) && !setK(annotations, k) ==> has(annL(r), k) == old(has(annL(r), k)) && annL(r)[k] == old(annL(r)[k]))
+//@   ensures [view]     result == nil ==> (forall k string :: (setK(annotations, k) ==> has(annV(r), k) && annV(r)[k] == old(annotations[k]))
+//@                          && (rmK(annotations, k) && !setK(annotations, k) ==> !has(annV(r), k))
+//@                          && (!rmK(annotations, k) && !setK(annotations, k) ==> has(annV(r), k) == old(has(annV(r), k)) && annV(r)[k] == old(annV(r)[k])))
+//@   ensures [reply.set]  result == nil ==> (forall k string :: setK(annotations, k) ==> has(annR(r), k) && annR(r)[k] == old(annotations[k]))
+//@   ensures [reply.rm]   result == nil ==> (forall k string :: rmK(annotations, k) ==> has(annR(r), "-" + k) && annR(r)["-" + k] == "")
+//@   ensures [reply.gone] result == nil ==> (forall k string :: rmK(annotations, k) && !setK(annotations, k) ==> !has(annR(r), k))
+//@   ensures [rkept]    result == nil ==> (forall j string :: !setK(annotations, j) && !rmK(annotations, j) && !(markedK(j) && old(has(annotations, j))) ==> has(annR(r), j) == old(has(annR(r), j)) && annR(r)[j] == old(annR(r)[j]))
+// -- loop 1: split off the removals
+//@   loop 1 modifies map(annotations), map(del)
+//@   loop 1 invariant del != nil && del != annotations
+//@   loop 1 invariant forall k string :: has(annotations, k) == (old(has(annotations, k)) && !(visited(k) && markedK(k)))
+//@   loop 1 invariant forall k string :: has(annotations, k) ==> annotations[k] == old(annotations[k])
+//@   loop 1 invariant forall d string :: has(del, d) == (visited("-" + d) && old(has(annotations, "-" + d)))
+//@   loop 1 invariant forall j string :: visited(j) ==> old(has(annotations, j))
+// -- loop 2: the sets (every key of the response that is left is unmarked)
+//@   loop 2 modifies mapkey(r.owners, cid(r)), ledger(r).annotations, map(ledger(r).annotations), map(annV(r)), map(annR(r)), map(del)
+//@   loop 2 invariant del != nil && wfRO(r.owners) && annV(r) == old(annV(r)) && annR(r) == old(annR(r))
+//@   loop 2 invariant (old(has(r.owners, cid(r))) ==> has(r.owners, cid(r)) && ledger(r) == old(ledger(r))) && (!old(has(r.owners, cid(r))) && has(r.owners, cid(r)) ==> fresh(ledger(r)) && zeroedexcept(ledger(r), "annotations"))
+//@   loop 2 invariant (old(annL(r)) != nil ==> annL(r) == old(annL(r))) && (old(annL(r)) == nil && annL(r) != nil ==> fresh(annL(r)))
+//@   loop 2 invariant (pre(has(r.owners, cid(r))) ==> has(r.owners, cid(r)) && ledger(r) == pre(ledger(r))) && (!pre(has(r.owners, cid(r))) && has(r.owners, cid(r)) ==> prefresh(ledger(r)))
+//@   loop 2 invariant (pre(annL(r)) != nil ==> annL(r) == pre(annL(r))) && (pre(annL(r)) == nil && annL(r) != nil ==> prefresh(annL(r)))
+//@   loop 2 invariant forall k string :: has(annotations, k) == pre(has(annotations, k)) && annotations[k] == pre(annotations[k])
+//@   loop 2 invariant forall k string :: has(annotations, k) == setK(annotations, k) && (has(annotations, k) ==> annotations[k] == old(annotations[k]))
+//@   loop 2 invariant forall j string :: visited(j) ==> has(annotations, j)
+//@   loop 2 invariant forall k string :: visited(k) ==> has(annL(r), k) && annL(r)[k] == plugin && has(annV(r), k) && annV(r)[k] == annotations[k] && has(annR(r), k) && annR(r)[k] == annotations[k] && !has(del, k)
+//@                      && (rmK(annotations, k) ==> has(annR(r), "-" + k) && annR(r)["-" + k] == "") && (!rmK(annotations, k) ==> !old(has(annL(r), k)))
+//@   loop 2 invariant forall k string :: !visited(k) ==> has(del, k) == rmK(annotations, k) && has(annL(r), k) == old(has(annL(r), k)) && annL(r)[k] == old(annL(r)[k]) && has(annV(r), k) == old(has(annV(r), k)) && annV(r)[k] == old(annV(r)[k])
+//@   loop 2 invariant forall j string :: !visited(j) && !(markedK(j) && (exists k string :: visited(k) && rmK(annotations, k) && j == "-" + k)) ==> has(annR(r), j) == old(has(annR(r), j)) && annR(r)[j] == old(annR(r)[j])
+// -- loop 3: the removals without a set
+//@   loop 3 modifies mapkey(r.owners, cid(r)), map(ledger(r).annotations), map(annV(r)), map(annR(r))
+//@   loop 3 invariant wfRO(r.owners) && annV(r) == pre(annV(r)) && annR(r) == pre(annR(r)) && annL(r) == pre(annL(r)) && (pre(has(r.owners, cid(r))) ==> has(r.owners, cid(r)) && ledger(r) == pre(ledger(r)))
+//@   loop 3 invariant (!pre(has(r.owners, cid(r))) && has(r.owners, cid(r)) ==> fresh(ledger(r)) && zeroed(ledger(r)))
+//@   loop 3 invariant forall k string :: has(del, k) == pre(has(del, k)) && (has(del, k) ==> rmK(annotations, k) && !setK(annotations, k))
+//@   loop 3 invariant forall j string :: visited(j) ==> has(del, j)
+//@   loop 3 invariant forall k string :: visited(k) ==> !has(annL(r), k) && !has(annV(r), k) && !has(annR(r), k) && has(annR(r), "-" + k) && annR(r)["-" + k] == ""
+//@   loop 3 invariant forall k string :: !visited(k) ==> has(annL(r), k) == pre(has(annL(r), k)) && annL(r)[k] == pre(annL(r)[k]) && has(annV(r), k) == pre(has(annV(r), k)) && annV(r)[k] == pre(annV(r)[k])
+//@   loop 3 invariant forall j string :: !visited(j) && !(markedK(j) && (exists k string :: visited(k) && j == "-" + k)) ==> has(annR(r), j) == pre(has(annR(r), j)) && annR(r)[j] == pre(annR(r)[j])
+
 // ---- hooks: six lists, appended to the reply and to the view (generated by gen_hooks.py) ----
 //@ pure sepHookTargets(r *result) = sep(base(reply(r).Hooks.Prestart), base(reply(r).Hooks.Poststart))
 //@     && sep(base(reply(r).Hooks.Prestart), base(reply(r).Hooks.Poststop))
